@@ -6,17 +6,20 @@
 
    What is stored under one resource name is [option res]; resbadger additionally
    keeps index entries  <name>:<key>\0<rid>  for that resource ([st_idx]).
-   JSON values are numbers or strings ([jval]); a Go value handed to an event method
-   is a float64, an int or a string ([gval]; reflect.DeepEqual distinguishes int from
-   the float64 that encoding/json produces, so the distinction is observable).
+   JSON values are numbers, strings, null, booleans and arrays of numbers ([jval]); a Go
+   value handed to an event method is a float64, an int, a string, nil, a bool or a
+   []interface{} of float64 ([gval]; reflect.DeepEqual distinguishes int from the float64
+   that encoding/json produces, so the distinction is observable).  A property that is
+   present with value null ([mget] = Some JNull) is distinct from an absent one (None),
+   as `ov, ok := m[k]` distinguishes them in both packages.
    No proofs here. *)
 From GoRes Require Export Base.Bytes.
 From Coq Require Export ZArith.
 Open Scope N_scope.
 
 Definition key := bytes.
-Inductive jval := JNum (n : N) | JStr (s : bytes).
-Inductive gval := GNum (n : N) | GInt (n : N) | GStr (s : bytes).
+Inductive jval := JNum (n : N) | JStr (s : bytes) | JNull | JBool (b : bool) | JArr (l : list N).
+Inductive gval := GNum (n : N) | GInt (n : N) | GStr (s : bytes) | GNull | GBool (b : bool) | GArr (l : list N).
 (* a property value or res.DeleteAction *)
 Inductive act (A : Type) := Put (a : A) | Del.
 Arguments Put {A} a.
@@ -24,12 +27,29 @@ Arguments Del {A}.
 
 (* json.Marshal followed by json.Unmarshal into interface{} *)
 Definition norm (g : gval) : jval :=
-  match g with GNum n => JNum n | GInt n => JNum n | GStr s => JStr s end.
+  match g with
+  | GNum n => JNum n | GInt n => JNum n | GStr s => JStr s
+  | GNull => JNull | GBool b => JBool b | GArr l => JArr l
+  end.
 Definition jeqb (a b : jval) : bool :=
-  match a, b with JNum x, JNum y => x =? y | JStr x, JStr y => beq x y | _, _ => false end.
+  match a, b with
+  | JNum x, JNum y => x =? y
+  | JStr x, JStr y => beq x y
+  | JNull, JNull => true
+  | JBool x, JBool y => Bool.eqb x y
+  | JArr x, JArr y => beq x y
+  | _, _ => false
+  end.
 (* reflect.DeepEqual(v, ov): v supplied by the caller, ov decoded from the stored JSON *)
 Definition deep_equal (g : gval) (j : jval) : bool :=
-  match g, j with GNum x, JNum y => x =? y | GStr x, JStr y => beq x y | _, _ => false end.
+  match g, j with
+  | GNum x, JNum y => x =? y
+  | GStr x, JStr y => beq x y
+  | GNull, JNull => true
+  | GBool x, JBool y => Bool.eqb x y
+  | GArr x, JArr y => beq x y
+  | _, _ => false
+  end.
 
 Definition jmodel := list (key * jval).
 Inductive res := RModel (m : jmodel) | RColl (c : list jval).
@@ -85,14 +105,42 @@ Record cfg := Cfg {
 Definition idxs (c : cfg) : option (list keyfn) :=
   match c_pkg c, c_type c with ResB, TModel => c_idx c | _, _ => None end.
 
-(* json.Unmarshal(dta, reflect.New(b.t)) succeeds *)
+(* v is a value of the element type of Type *)
 Definition vfits (t : ty) (v : jval) : bool :=
-  match t, v with TyAny, _ => true | TyNum, JNum _ => true | TyNum, JStr _ => false end.
+  match t with
+  | TyAny => true
+  | TyNum => match v with JNum _ => true | _ => false end
+  end.
 Definition fits (c : cfg) (r : res) : bool :=
   match c_type c, r with
   | TModel, RModel m => forallb (fun kv => vfits (c_ty c) (snd kv)) m
   | TColl, RColl l => forallb (vfits (c_ty c)) l
   | _, _ => false
+  end.
+(* json.Unmarshal(dta, reflect.New(b.t)): None = error.  Into float64 a JSON null is
+   "ignored" by encoding/json and leaves the zero value; every other non-number fails. *)
+Definition vdec (t : ty) (v : jval) : option jval :=
+  match t with
+  | TyAny => Some v
+  | TyNum => match v with JNum n => Some (JNum n) | JNull => Some (JNum 0) | _ => None end
+  end.
+Fixpoint dec_list (t : ty) (l : list jval) : option (list jval) :=
+  match l with
+  | [] => Some []
+  | v :: l' =>
+    match vdec t v, dec_list t l' with Some v', Some r => Some (v' :: r) | _, _ => None end
+  end.
+Fixpoint dec_model (t : ty) (m : jmodel) : option jmodel :=
+  match m with
+  | [] => Some []
+  | (k, v) :: m' =>
+    match vdec t v, dec_model t m' with Some v', Some r => Some ((k, v') :: r) | _, _ => None end
+  end.
+Definition decode (c : cfg) (r : res) : option res :=
+  match c_type c, r with
+  | TModel, RModel m => option_map RModel (dec_model (c_ty c) m)
+  | TColl, RColl l => option_map RColl (dec_list (c_ty c) l)
+  | _, _ => None
   end.
 
 (* ---- database content that belongs to one resource name ---- *)
@@ -174,9 +222,11 @@ Definition apply_change (c : cfg) (s : state) (cs : list (key * act gval)) : out
         match idxs c with
         | None => Applied (St (Some (RModel m1)) (st_idx s)) (ORev rev)
         | Some ks =>
-          if fits c (RModel m0) && fits c (RModel m1)
-          then Applied (St (Some (RModel m1)) (idx_change 0 ks (RModel m0) (RModel m1) (st_idx s))) (ORev rev)
-          else Failed s                                  (* error inside the transaction: rolled back *)
+          (* before / after value: dta and ndta unmarshalled into Type *)
+          match decode c (RModel m0), decode c (RModel m1) with
+          | Some b, Some a => Applied (St (Some (RModel m1)) (idx_change 0 ks b a (st_idx s))) (ORev rev)
+          | _, _ => Failed s                             (* error inside the transaction: rolled back *)
+          end
         end
     end
   end.
@@ -225,7 +275,9 @@ Definition apply_delete (c : cfg) (s : state) : outcome :=
   | Legacy =>
     match st_val s with
     | None => Applied s (OData None)                     (* json.RawMessage(nil) *)
-    | Some r => Applied (St None (st_idx s)) (OData (Some r))
+    | Some r =>
+      (* the value unmarshalled into Type, or the raw JSON when that fails *)
+      Applied (St None (st_idx s)) (OData (Some (match decode c r with Some r' => r' | None => r end)))
     end
   | ResB =>
     match st_val s with
@@ -236,10 +288,12 @@ Definition apply_delete (c : cfg) (s : state) : outcome :=
       end
     | Some r =>
       (* the value is unmarshalled into Type inside the transaction, before txn.Delete *)
-      if fits c r then
-        Applied (St None (match idxs c with Some ks => idx_delete 0 ks r (st_idx s) | None => st_idx s end))
-                (OData (Some r))
-      else Failed s
+      match decode c r with
+      | Some r' =>
+        Applied (St None (match idxs c with Some ks => idx_delete 0 ks r' (st_idx s) | None => st_idx s end))
+                (OData (Some r'))
+      | None => Failed s
+      end
     end
   end.
 
@@ -248,7 +302,10 @@ Definition apply_delete (c : cfg) (s : state) : outcome :=
 Definition apply_delete_v0 (c : cfg) (s : state) : outcome :=
   match c_pkg c, idxs c, st_val s with
   | ResB, None, Some r =>
-    if fits c r then Applied (St None (st_idx s)) (OData (Some r)) else Failed (St None (st_idx s))
+    match decode c r with
+    | Some r' => Applied (St None (st_idx s)) (OData (Some r'))
+    | None => Failed (St None (st_idx s))
+    end
   | _, _, _ => apply_delete c s
   end.
 
@@ -261,7 +318,7 @@ Definition get_resource (c : cfg) (s : state) : gres :=
   end.
 Definition value_resource (c : cfg) (s : state) : gres :=
   match st_val s with
-  | Some r => if fits c r then GOk r else GErr
+  | Some r => match decode c r with Some r' => GOk r' | None => GErr end
   | None => match c_def c with Some d => GOk d | None => GNotFound end
   end.
 (* closing and reopening the database: the handlers keep nothing outside it *)
@@ -351,14 +408,14 @@ Definition final (c : cfg) (s : state) (es : list event) : state :=
 
 (* the Index.Key callbacks used by the correspondence harness: the value of one
    property; a string gives its bytes (the empty string an empty non-nil slice),
-   a number n the single byte '0' + n mod 10, anything else nil *)
+   a number n the single byte '0' + n mod 10, anything else (absent, null, bool, array) nil *)
 Definition field_key (f : key) : keyfn := fun r =>
   match r with
   | RModel m =>
     match mget f m with
     | Some (JStr s) => Some s
     | Some (JNum n) => Some [48 + n mod 10]
-    | None => None
+    | _ => None
     end
   | RColl _ => None
   end.
